@@ -280,7 +280,31 @@ func runC08(c *Ctx) error {
 			if len(chain) > 0 {
 				idx = c.Rng.IntN(len(chain))
 			}
-			switch c.Rng.IntN(24) {
+			switch c.Rng.IntN(27) {
+			case 24, 25, 26:
+				// the newest accepted announcement of an origin, re-sent with the SAME timestamp and origin
+				// signature but a modified body; the hop records are valid (their signing context — origin,
+				// time, origin signature — is unchanged) and signed by colluding routers incl. the delivering peer
+				if lastAnn != nil {
+					nb, _ := cbor.Marshal(&router.AnnouncePingMsg{Info: &m.RouterInfo{Version: "t"}, ReturnLabel: lastAnn.msg.ReturnLabel + 1, Stub: !lastAnn.msg.Stub, Expires: lastAnn.msg.Expires})
+					fb, err := craftPing(pingSpec{from: lastAnn.origin, dst: m.RouterAddress, msgType: frame.RouterHopPingDeprecated, pingType: "announce", body: nb, seqTime: lastAnn.t})
+					if err == nil {
+						sigOf := func(d []byte) []byte {
+							mi := 49 + int(d[48])
+							ai := mi + 2 + (int(d[mi])<<8 | int(d[mi+1]))
+							return d[ai : ai+64]
+						}
+						copy(sigOf(fb), sigOf(lastAnn.base))
+						fa := &c08Ann{origin: lastAnn.origin, base: fb, t: lastAnn.t, ctx: c08Ctx(fb)}
+						_ = cbor.Unmarshal(nb, &fa.msg)
+						a, origin = fa, lastAnn.origin
+						if n == 0 {
+							n = 1
+						}
+						chain = honest(a, deliver, n)
+						op, forged = "same-time-modified-body", true
+					}
+				}
 			case 22, 23:
 				// the delivering peer announces itself but attaches a (genuinely signed) hop record of another
 				// router: the outermost signer is not the delivering peer
@@ -475,10 +499,13 @@ func runC08(c *Ctx) error {
 				data = append(append([]byte(nil), a.base...), c08Encode(chain)...)
 				if op == "frame-flip" {
 					pos := 3 + c.Rng.IntN(len(data)-3)
-					for pos >= 32 && pos < 48 { // a changed destination makes it transit traffic for R's switch, not an announcement for R
+					bit := byte(1) << uint(c.Rng.IntN(8))
+					// a changed destination, or a message type that is no longer a hop ping, makes it transit
+					// traffic for R's switch (forwarded unauthenticated by design), not an announcement for R
+					for (pos >= 32 && pos < 48) || (pos == 4 && (data[4]^bit) != 0 && (data[4]^bit) != 3) {
 						pos = 3 + c.Rng.IntN(len(data)-3)
 					}
-					data[pos] ^= 1 << uint(c.Rng.IntN(8))
+					data[pos] ^= bit
 					op = "frame-flip-" + regionOf(pos, 49, len(a.base)-64, len(a.base))
 					if pos >= len(a.base) {
 						op = "frame-flip-appendix"
